@@ -255,6 +255,8 @@ func init() {
 		}
 		genServeCases(rng, n, 6, true, 85)
 		genReqHeads(rng, n*4)
+		// configuration "streaming request body": well-formed streams, handlers that read all or part of the body
+		genStreamCases(rng, n/3, 85)
 	}
 	props["C02"] = func(tier string, rng *Rng) {
 		n := 250
